@@ -74,6 +74,8 @@ def corpus_helpers(tier):
         ([part("l", None, "é".encode("latin-1")), part("u", "fn", b"\r" + b"q" * 30)], b, "latin-1", None, None),
         ([part("u", "fn", b"\n--b" + b"\r\n--", None)], b"--", "utf-8", None, None),
     ]
+    # names and file names that contain what looks like an escape sequence of some other layer: they are ordinary text
+    out.append(([part("a%22b%0A", None, b"v%0D"), part("50%25", "report 50%22 screen%0A%0D.txt", b"x"), part("q&amp;", "a&#10;b.txt", b"y"), part("%41", "%E4%B8%AD.txt", b"z")], b, "utf-8", None, None))
     # parts long enough to be delivered in several hundred pieces (more Data events than the default part limit)
     out.append(([part("big", "big.bin", bytes(range(256)) * 2), part("txt", None, ("line of text " * 30).encode())], b, "utf-8", None, None))
     if tier == "thorough":
